@@ -1,7 +1,20 @@
 import KitModel.Go.Prelude
-/-! Driver for property C01: `kitdrv C01` reads op lines on stdin, one answer line per input line. -/
+import KitModel.Enc
+import KitModel.EncReal
+/-! Driver for property C01: `kitdrv C01` reads op lines on stdin, one answer line per input line.
+
+ops
+* `ps seg=<n> data=<hex> caps=<a,b,…> ewd=<0|1> term=<eof|failOnce|failSticky> failcall=<k|none>`
+  — model `processSegments` with a recording function that echoes its input and fails at call `k`.
+  Answer `calls=<hex>:<num>:<last>;… out=<hex> term=<name>`.
+* `rh data=… caps=… ewd=… term=… fix=<0|1>` — model `readHeader`; answer
+  `ok manifest=<hex> mac=<hex> rest=<hex> restterm=<eof|fail>` or `err=<name>`.
+* `enc …` / `dec …` / `selftest` — real documents with the Lean-native primitives (see `KitModel/EncReal.lean`).
+-/
 namespace Driver.C01
+open Kit Kit.Enc
+
 def main (_args : List String) : IO UInt32 := do
-  IO.eprintln "kitdrv: C01 has no model driver yet"
-  return 2
+  Kit.lineLoop (fun (_ : Unit) line => ((), Kit.Enc.Real.answer line)) ()
+  return 0
 end Driver.C01
